@@ -381,3 +381,47 @@ Example c04_factory_history_example :
     OGet 2 false None; OEndOk 2 (VOrig 2);
     OGet 3 true None ].
 Proof. vm_compute. reflexivity. Qed.
+
+(* ---- extended semantics (Model/FactoryX.v): short-circuiting post-processors and lookups issued from Init ------ *)
+From IocVerif Require Import Model.FactoryX Proofs.FactoryXProofs.
+
+(* without such extras the extended model is the model above, result and history *)
+Theorem c04_extended_conservative : forall vt s, run_xt vt s no_extras = run_t vt s.
+Proof. exact run_xt_none. Qed.
+
+(* with them, the history of every start is still in the strict protocol language and replays to the final
+   registry: re-entrant lookups and skipped creations do not take the factory outside the protocol *)
+Theorem c04_factory_conforms_extended : forall vt s x,
+  conforms_strict_v vt (fst (run_xt vt s x)) = true /\
+  state_after vt (fst (run_xt vt s x)) = match snd (run_xt vt s x) with Ok st => reg st | Fail _ st => reg st end.
+Proof.
+  intros vt s x. split; [apply run_xt_conforms_strict|]. rewrite run_xt_replay. destruct (snd (run_xt vt s x)); reflexivity.
+Qed.
+
+(* non-vacuity: component 2's Init looks up the lazy component 3, which is wired with 2 (2 is in creation: 3 gets
+   its early reference); processor 4 short-circuits component 5 *)
+Definition ex_extras_scn : scenario :=
+  mkScn [ mkComp 100 [] false None false true [] [] [] None None None false (Some (Ord 2, PBuiltin BWire));
+          mkComp 101 [] false None false true [] [] [] None None None false (Some (Ord 4, PBuiltin BFurther));
+          mkComp 0 [] false None false false [] [] [] None (Some false) None false None;
+          mkComp 1 [] false None false true [] [mkPoint false (TPtr 0) SByType None true] [] None (Some false) None false None;
+          mkComp 7 [] false None false false [] [] [] None None None false (Some (Unord, PUser [] []));
+          mkComp 2 [] false None false false [] [] [] None (Some false) None false None ]
+        [] false None [].
+Definition ex_extras : extras := mkX [(4, 5)] [(2, [3])].
+
+Example c04_extended_example :
+  fst (run_xt repaired ex_extras_scn ex_extras) =
+  [ OGet 4 true None; OBegin 4; OAddFactory 4 4; OGet 4 false None; OEndOk 4 (VOrig 4);
+    OGet 2 true None; OBegin 2; OAddFactory 2 2;
+      OGet 3 true None; OBegin 3; OAddFactory 3 3;
+        OGet 2 true (Some (VOrig 2));
+      OGet 3 false None; OEndOk 3 (VOrig 3);
+    OGet 2 false None; OEndOk 2 (VOrig 2);
+    OGet 4 true None;
+    OGet 5 true None; OBegin 5; OEndOk 5 (VOrig 5) ]
+  /\ match snd (run_xt repaired ex_extras_scn ex_extras) with
+     | Ok st => field_of st 2 100 = [VOrig 3] /\ log st = [EvAfter 4 5; EvAfter 4 2; EvAfter 4 3; EvInit 3; EvBefore 4 3 [true]; EvEarly 4 2; EvInit 2; EvBefore 4 2 []]
+     | Fail _ _ => False
+     end.
+Proof. vm_compute. repeat split. Qed.
